@@ -507,20 +507,26 @@ Section HttpTop.
     - rewrite Hg in H. destruct (f_pack (hf_filter g) body); [|discriminate]. inversion H. reflexivity.
   Qed.
 
-  Definition first_req (m : msg) : bytes := str "POST " ++ m_method m ++ str " HTTP/1.1".
+  (* URL.EscapedPath of the parsed service method *)
+  Variable url_esc : bytes -> bytes.
 
-  (* supported field set of a request: call / auth-call, a service method that is a plain path
-     for net/url (parsed to itself, no query, no host) without space or line feed, a codec
-     with a content type of its own, status OK (a request carries none) *)
-  Definition req_ok (m : msg) : Prop :=
+  Definition first_req (m : msg) : bytes := str "POST " ++ url_esc (m_method m) ++ str " HTTP/1.1".
+
+  (* supported field set of a request: call / auth-call; a service method that net/url parses
+     to the path [path] without query and host, whose escaped form (what EscapedPath returns:
+     no blank, no line feed) parses back to the same path - for a method that is its own path
+     (no percent escapes) [path] is the method itself; a codec with a content type of its own,
+     status OK (a request carries none) *)
+  Definition req_ok (m : msg) (path : bytes) : Prop :=
     (b2n (m_mtype m) = 1 \/ b2n (m_mtype m) = 4) /\
-    url_parse (m_method m) = Some (m_method m, [], []) /\
-    nospace (m_method m) = true /\ nolf (m_method m) = true /\
+    url_parse (m_method m) = Some (path, [], []) /\
+    url_parse (url_esc (m_method m)) = Some (path, [], []) /\
+    nospace (url_esc (m_method m)) = true /\ nolf (url_esc (m_method m)) = true /\
     codec_mapped (m_codec m) = true /\ int32_ok (m_seq m) = true /\ m_status m = status_zero.
 
-  Theorem http_request_roundtrip_lemma lim p m f size rest :
-    req_ok m -> pipe_ok by_name p ->
-    http_pack hdr_write url_parse st_json lim p m = Ok (f, size) ->
+  Theorem http_request_roundtrip_lemma lim p m path f size rest :
+    req_ok m path -> pipe_ok by_name p ->
+    http_pack hdr_write url_parse url_esc st_json lim p m = Ok (f, size) ->
     (forall body' ops0, http_pipe p (m_body m) [] = Some (body', ops0) ->
        let L := hdr_write (ops_request ops0 m [] (blen body')) in
        hdr_contract lim L (m_seq m) (m_mtype m)
@@ -532,10 +538,10 @@ Section HttpTop.
       f = first_req m ++ crlf ++ ser_lines L ++ crlf ++ body' /\
       let st := pfold by_name L (mkHs x00 0 [] 0 x01 [] 0) in
       http_unpack url_parse st_unjson by_name lim (f ++ rest)
-      = Ok (mkMsg (m_seq m) (m_mtype m) (m_method m) status_zero (hs_meta st) (m_codec m) (m_body m),
+      = Ok (mkMsg (m_seq m) (m_mtype m) path status_zero (hs_meta st) (m_codec m) (m_body m),
             pipe_ids_h p, final_size lim (hs_size st + 0 + blen (first_req m)), rest).
   Proof.
-    intros (Hmt & Hurl & Hns & Hnl & Hcm & Hseq & Hst) Hp Hpack Hc Hfl.
+    intros (Hmt & Hurl & Hurl2 & Hns & Hnl & Hcm & Hseq & Hst) Hp Hpack Hc Hfl.
     unfold http_pack in Hpack.
     destruct (http_pipe p (m_body m) []) as [[body' ops0]|] eqn:Hpipe; [|discriminate].
     replace ((b2n (m_mtype m) =? 1) || (b2n (m_mtype m) =? 4)) with true in Hpack
@@ -544,40 +550,49 @@ Section HttpTop.
     apply Ok_inj in Hpack. apply pair_equal_spec in Hpack as [Ef _].
     destruct (Hc body' ops0 eq_refl) as (Hcon & Hbl & Hsz). cbv zeta in Hcon, Hsz.
     set (L := hdr_write (ops_request ops0 m [] (blen body'))) in *.
+    set (E := url_esc (m_method m)) in *.
     exists L, body'. split.
-    { rewrite <- Ef. unfold first_req, crlf. cbn [str app]. rewrite <- ?app_assoc. reflexivity. }
+    { rewrite <- Ef. unfold first_req, crlf. fold E. cbn [str app]. rewrite <- ?app_assoc. reflexivity. }
     cbv zeta. set (st0 := mkHs x00 0 [] 0 x01 [] 0) in *.
     destruct (codec_mapped_facts (m_codec m) (str "text/plain;charset=utf-8") Hcm) as (Hcl & Hbc & _).
     assert (Hs32 : (-4294967295 <= m_seq m <= 4294967295)%Z).
     { unfold int32_ok in Hseq. apply andb_true_iff in Hseq as [A B]. apply Z.leb_le in A, B. lia. }
     destruct (http_rest_ok by_name lim L p (m_seq m) (m_mtype m) _ (m_body m) body' rest st0
-                Hcon Hp (http_pipe_ok p (m_body m) Hp body' ops0 Hpipe) Hcl Hs32 Hbl eq_refl Hsz ltac:(unfold first_req in Hfl; rewrite blen_app in Hfl; lia))
+                Hcon Hp (http_pipe_ok p (m_body m) Hp body' ops0 Hpipe) Hcl Hs32 Hbl eq_refl Hsz ltac:(unfold first_req in Hfl; fold E in Hfl; rewrite blen_app in Hfl; lia))
       as (Hrest & Fseq & Fmt & Fct & Fp).
     (* the first line *)
-    assert (Ef' : f ++ rest = str "POST " ++ (m_method m ++ str " HTTP/1.1") ++ CR :: LF ::
+    assert (Ef' : f ++ rest = str "POST " ++ (E ++ str " HTTP/1.1") ++ CR :: LF ::
                                (ser_lines L ++ CR :: LF :: body' ++ rest)).
     { rewrite <- Ef. rewrite <- !app_assoc. reflexivity. }
     unfold http_unpack. rewrite Ef'.
     rewrite take_app by reflexivity. cbn [rbind].
-    assert (Hnl1 : nolf (m_method m ++ str " HTTP/1.1") = true).
+    assert (Hnl1 : nolf (E ++ str " HTTP/1.1") = true).
     { unfold nolf in *. rewrite forallb_app, Hnl. reflexivity. }
     rewrite read_line_crlf.
     2: exact Hnl1.
-    2:{ unfold first_req in Hfl. rewrite !blen_app in *. change (blen (str "POST ")) with 5 in Hfl. lia. }
+    2:{ unfold first_req in Hfl. fold E in Hfl. rewrite !blen_app in *. change (blen (str "POST ")) with 5 in Hfl. lia. }
     cbn [rev app rbind].
     change (bytes_eqb (str "POST ") (str "HTTP/")) with false. cbn iota.
-    change (str "POST " ++ m_method m ++ str " HTTP/1.1")
-      with (str "POST" ++ " "%byte :: (m_method m ++ str " HTTP/1.1")).
+    change (str "POST " ++ E ++ str " HTTP/1.1")
+      with (str "POST" ++ " "%byte :: (E ++ str " HTTP/1.1")).
     rewrite split1_app by reflexivity. cbn [rev app].
-    change (m_method m ++ str " HTTP/1.1") with (m_method m ++ " "%byte :: str "HTTP/1.1").
+    change (E ++ str " HTTP/1.1") with (E ++ " "%byte :: str "HTTP/1.1").
     rewrite split1_app by exact Hns. cbn [rev app].
-    rewrite Hurl. cbn [rbind].
+    rewrite Hurl2. cbn [rbind].
     fold st0. rewrite Hrest. cbn [rbind].
     change (hs_seq (bump ?s 0)) with (hs_seq s). 
     unfold bump. cbn [hs_seq hs_mtype hs_meta hs_codec hs_pipe hs_size].
     rewrite Fseq, Fmt, Fct, Fp, Hbc, wrap32_id by exact Hseq.
     unfold first_req. reflexivity.
   Qed.
+
+  (* the request line as the reader splits it: the target is what stands between the first and
+     the second blank *)
+  Definition line_target (first : bytes) : option bytes :=
+    match split1 " "%byte first [] with
+    | Some (_, r1) => match split1 " "%byte r1 [] with Some (t, _) => Some t | None => None end
+    | None => None
+    end.
 
   (* supported field set of a reply with status OK *)
   Definition resp_ok (m : msg) : Prop :=
@@ -589,7 +604,7 @@ Section HttpTop.
 
   Theorem http_response_roundtrip_lemma lim p m f size rest :
     resp_ok m -> pipe_ok by_name p ->
-    http_pack hdr_write url_parse st_json lim p m = Ok (f, size) ->
+    http_pack hdr_write url_parse url_esc st_json lim p m = Ok (f, size) ->
     (forall body' ops0, http_pipe p (m_body m) [] = Some (body', ops0) ->
        let L := hdr_write (ops_response ops0 m (content_type (m_codec m) (str "text/plain")) (blen body')) in
        hdr_contract lim L (m_seq m) (m_mtype m)
@@ -690,3 +705,13 @@ Proof. exists (str "/a b"). vm_compute. intros H. discriminate H. Qed.
 Theorem http_codec_unguarded_refuted :
   exists c, body_codec (content_type c (str "text/plain;charset=utf-8")) <> c.
 Proof. exists "t"%byte. vm_compute. intros H. discriminate H. Qed.
+
+(* before the repair packRequest wrote the decoded path (u.Path) raw into the request line: a
+   path with a blank is cut at the blank by the reader's split of the line, whatever the url
+   library does afterwards *)
+Theorem http_raw_path_prefix_refuted :
+  exists path, nolf path = true /\
+    line_target (str "POST " ++ path ++ str " HTTP/1.1") = Some (str "/a") /\ str "/a" <> path.
+Proof.
+  exists (str "/a b"). split; [reflexivity|]. split; [vm_compute; reflexivity | discriminate].
+Qed.
